@@ -6,13 +6,16 @@ from harness.common import begin
 EXPLANATION = ("One real MessagePassingComputation subclass is driven through a solver-chosen history of operations "
                "{receive from sender i, post to target j, pause, resume, start}; messages it re-injects to itself with "
                "priority 19 are delivered before any newer message (what the agent's priority queue gives). Oracle: handler "
-               "invocations == receptions, once each, in reception order; sender calls == posts, once each, in posting order.")
+               "invocations == receptions, once each, in reception order; sender calls == posts, once each, in posting order. "
+               "A second computation uses SynchronousComputationMixin (3 neighbours, solver-chosen targets of its start and "
+               "cycle-1 messages) under histories of {pause, resume, start, receive the next cycle-0 message}: every neighbour "
+               "gets exactly one message per cycle, in posting order, with the right cycle id.")
 ASSUMPTIONS = [
     "re-injected messages (priority below the default 20, addressed to the computation itself) are handled before any later reception, in injection order -- the (priority, counter) order of Messaging, checked by C18",
     "messages are opaque tokens; 2 senders and 2 targets; the time stamp of each reception is an arbitrary real (symbolic)",
 ]
-BOUNDS = {"quick": "every history of <= 6 operations over {recv s0, recv s1, post t0, post t1, pause, resume, start}",
-          "thorough": "every history of <= 8 operations"}
+BOUNDS = {"quick": "every history of <= 6 operations over {recv s0, recv s1, post t0, post t1, pause, resume, start}; synchronous computation: histories of <= 5 operations, cycles 0 and 1",
+          "thorough": "every history of <= 8 operations; synchronous computation: <= 7 operations"}
 OUTSIDE = "longer histories, a stop()/restart cycle, periodic actions"
 CAP_S = {"quick": 900, "thorough": 7200}
 OPS = ["recv0", "recv1", "post0", "post1", "pause", "resume", "start"]
@@ -22,11 +25,99 @@ def jobs(tier):
     out = [{"name": "histories-%d" % n, "length": n} for n in ([6] if tier == "quick" else [6, 8])]
     # the hand-over of a re-injected message is an operation of its own: pause / resume / start may come in between
     out.append({"name": "histories-lane-%d" % (6 if tier == "quick" else 7), "length": 6 if tier == "quick" else 7, "lane_ops": True})
+    # a synchronous computation (SynchronousComputationMixin): what start() and a cycle switch post while paused
+    out.append({"name": "sync-histories-%d" % (5 if tier == "quick" else 7), "length": 5 if tier == "quick" else 7, "sync": True})
     return out
+
+
+def run_sync(eng, p):
+    from pydcop.infrastructure.computations import (MessagePassingComputation, SynchronousComputationMixin, Message,
+                                                    SynchronizationMsg, register)
+    neighbours = ["n0", "n1", "n2"]
+    subsets = [[], ["n0"], ["n1"], ["n2"], ["n1", "n0"], ["n0", "n2"], ["n2", "n1"], ["n2", "n0", "n1"]]
+    first = subsets[eng.choose(len(subsets), "start_targets")]
+    second = subsets[eng.choose(len(subsets), "cycle1_targets")]
+    cycles = []
+
+    class Sync(SynchronousComputationMixin, MessagePassingComputation):
+        @property
+        def neighbors(self):
+            return list(neighbours)
+
+        def on_start(self):
+            for t in first:
+                self.post_msg(t, Message("tok", "start"))
+
+        @register("tok")
+        def _on_tok(self, sender, msg, t):
+            pass
+
+        def on_new_cycle(self, messages, cycle_id):
+            cycles.append((cycle_id, sorted(messages)))
+            return [(t, Message("tok", "c1")) for t in second]
+
+    comp = Sync("c")
+    sent, lane = [], []
+
+    def sender(src, dst, msg, prio=None, on_error=None):
+        if dst == "c" and prio is not None and prio < 20:
+            lane.append((src, msg))
+        else:
+            sent.append((dst, msg.type, msg.cycle_id))
+    comp.message_sender = sender
+    hist, started, to_recv = [], False, list(neighbours)
+    n = eng.choose(p["length"], "length") + 1
+
+    def recv():
+        src = to_recv.pop(0)
+        m = SynchronizationMsg() if src != "n1" else Message("tok", "in")
+        m.cycle_id = 0
+        comp.on_message(src, m, 0.0)
+    try:
+        for step in range(n):
+            ops = ["pause", "resume"] + ([] if started else ["start"]) + (["recv"] if to_recv else [])
+            op = ops[eng.choose(len(ops), "op_%d" % step)]
+            hist.append(op)
+            if op == "pause":
+                comp.pause(True)
+            elif op == "resume":
+                comp.pause(False)
+            elif op == "start":
+                started = True
+                comp.start()
+            else:
+                recv()
+            while lane:
+                src, msg = lane.pop(0)
+                comp.on_message(src, msg, float(step))
+        if not started:
+            comp.start()
+        comp.pause(False)
+        while lane or to_recv:
+            if lane:
+                src, msg = lane.pop(0)
+                comp.on_message(src, msg, float(n))
+            else:
+                recv()
+    except Exception as e:
+        eng.notes["outcome"] = {"history": hist, "exc": str(e)}
+        eng.fail("exception %s: %s" % (type(e).__name__, e), detail=traceback.format_exc(limit=-4))
+        return
+    expected = []
+    for cyc, targets in ((0, first), (1, second)):
+        expected += [(t, "tok", cyc) for t in targets]
+        expected += [(t, "cycle_sync", cyc) for t in neighbours if t not in targets]
+    eng.notes["outcome"] = {"history": hist, "sent": sent, "cycles": cycles}
+    eng.prove(cycles == [(0, ["n1"])], "the cycle-0 messages (possibly held) were not handed to on_new_cycle exactly once",
+              detail=str({"history": hist, "cycles": cycles}))
+    eng.prove(sent == expected, "messages posted (possibly while paused) not sent exactly once in posting order",
+              detail=str({"history": hist, "expected": expected, "sent": sent}))
 
 
 def run(eng, p):
     begin(eng, numpy_facade=False)
+    if p.get("sync"):
+        return run_sync(eng, p)
     from pydcop.infrastructure.computations import MessagePassingComputation, Message, register
 
     handled = []
